@@ -67,7 +67,7 @@ def chanlife_part(ctx, own_prefixes, depth, known_key_fn=None):
     the model's state (spec/ChanLifeCases.tla)."""
     from mbt import batch, tlc
 
-    for cfg, must_hold in (("CL", True), ("CL_unfixed", False)):
+    for cfg, must_hold in (("CL" if ctx.quick else "CL_big", True), ("CL_unfixed", False)):
         r = tlc.run("MCChanLife", cfg + ".cfg", scratch=ctx.scratch, timeout=900, parse_trace=False)
         if must_hold and not r.ok:
             ctx.machinery(f"TLC MCChanLife/{cfg}: {r.violated} {r.error[:400]}")
